@@ -837,6 +837,14 @@ class Package:
             bind_module_constants(tree, env)
             if len(env) == before_n:
                 break
+        # a class that could not be built is a free name for whoever mentions it (exit 2 there); one whose mere creation has an
+        # effect elsewhere (class keywords handed to a registration hook of its base) must not be skipped silently
+        for st in tree.body:
+            if isinstance(st, ast.ClassDef) and st.name not in env and st.keywords:
+                try:
+                    build_class(st, bi)
+                except Unsupported as e:
+                    raise Unsupported(f"class {st.name} (with class keywords) cannot be evaluated: {e}")
         self._bi = bi
         return env
 
